@@ -130,6 +130,12 @@ pub trait Property: Sync {
     fn fixed_cases(&self) -> Vec<Vec<u8>> {
         vec![]
     }
+    /// a short tag describing what the case does, appended to the signature of a crash or hang
+    /// (which carries no detail of its own) so that a known crash does not mask other crashes;
+    /// must only decode, never run the case
+    fn crash_context(&self, _bytes: &[u8]) -> String {
+        String::new()
+    }
 }
 
 /// root of the verification tree; background snapshot runs set VERIF_ROOT to their own copy so
@@ -628,7 +634,7 @@ pub fn parent_main(prop: &dyn Property, tier: Tier) -> i32 {
                     }
                 }
                 OneResult::Crash(sig) => {
-                    let fl = Failure::new("no_crash", &format!("crash:signal{}", sig), "worker process died");
+                    let fl = Failure::new("no_crash", &format!("crash:signal{}{}", sig, prop.crash_context(&bytes)), "worker process died");
                     if known.iter().any(|k| k.sig == fl.sig) {
                         *known_hits.entry(fl.sig.clone()).or_default() += 1;
                     } else {
@@ -636,7 +642,7 @@ pub fn parent_main(prop: &dyn Property, tier: Tier) -> i32 {
                     }
                 }
                 OneResult::Hang => {
-                    let fl = Failure::new("terminates", "hang", "case did not finish within the watchdog");
+                    let fl = Failure::new("terminates", &format!("hang{}", prop.crash_context(&bytes)), "case did not finish within the watchdog");
                     if known.iter().any(|k| k.sig == fl.sig) {
                         *known_hits.entry(fl.sig.clone()).or_default() += 1;
                     } else if prop.states_termination() {
@@ -776,10 +782,10 @@ pub fn parent_main(prop: &dyn Property, tier: Tier) -> i32 {
                     let f = match &kind {
                         OneResult::Crash(sig) => Failure::new(
                             "no_crash",
-                            &format!("crash:signal{}", sig),
+                            &format!("crash:signal{}{}", sig, prop.crash_context(&small)),
                             "the process running the case died (signal / abort / native stack overflow)",
                         ),
-                        _ => Failure::new("terminates", "hang", "case does not finish within the watchdog (reproduced twice in isolation)"),
+                        _ => Failure::new("terminates", &format!("hang{}", prop.crash_context(&small)), "case does not finish within the watchdog (reproduced twice in isolation)"),
                     };
                     if known.iter().any(|k| k.sig == f.sig) {
                         *known_hits.entry(f.sig.clone()).or_default() += 1;
@@ -949,6 +955,52 @@ pub fn replay_main(prop: &dyn Property, file: &Path) -> i32 {
         Verdict::Pass => {
             println!("pass (labels: {:?}, nontrivial: {})", out.labels, out.nontrivial);
             0
+        }
+    }
+}
+
+// ---------------------------------------------------------------------------------------------
+// fork probe: run a closure that is expected to be able to kill the process in a forked child
+// ---------------------------------------------------------------------------------------------
+
+#[derive(Debug, Clone, PartialEq, Eq)]
+pub enum Probe {
+    Returned,
+    Signal(i32),
+    Timeout,
+}
+
+/// Runs `f` in a forked child of this (single-threaded) worker and reports how the child ended.
+/// Used for inputs that are known to be able to overflow the native stack, so that the worker
+/// itself survives and the campaign goes on.
+pub fn fork_probe(timeout: Duration, f: impl FnOnce()) -> Probe {
+    unsafe {
+        let pid = libc::fork();
+        if pid < 0 {
+            return Probe::Timeout;
+        }
+        if pid == 0 {
+            // child: silence the "has overflowed its stack" message
+            libc::close(2);
+            f();
+            libc::_exit(0);
+        }
+        let start = Instant::now();
+        loop {
+            let mut status: libc::c_int = 0;
+            let r = libc::waitpid(pid, &mut status, libc::WNOHANG);
+            if r == pid {
+                if libc::WIFSIGNALED(status) {
+                    return Probe::Signal(libc::WTERMSIG(status));
+                }
+                return Probe::Returned;
+            }
+            if start.elapsed() > timeout {
+                libc::kill(pid, libc::SIGKILL);
+                libc::waitpid(pid, &mut status, 0);
+                return Probe::Timeout;
+            }
+            std::thread::sleep(Duration::from_millis(1));
         }
     }
 }
